@@ -8,7 +8,7 @@ LEVEL = "proof"
 META = {
     "level": "proof",
     "technique": "contract-based deductive verification: sidecar pre/postconditions, frames and loop invariants on the real runtime functions AND on every function the real compiler generates for a family of schematic templates (holes = induction hypothesis); VCs from the AST, discharged by z3/cvc5",
-    "level_text": "Every obligation generated from the current source of the buffer-stack, caller-stack, capture and supports_caller functions is discharged by an SMT solver for all stack depths and contents, on normal and exceptional exits; callers are checked against callee contracts only.",
+    "level_text": "Every obligation generated from the current source of the buffer-stack, caller-stack, capture and supports_caller functions is discharged by an SMT solver for all stack depths and contents, on normal and exceptional exits; callers are checked against callee contracts only. Tag._parse_attributes against the recursive spec attr_pieces (literal text as strings, ${} as values, mixtures in order) and write_def_finish (a def or block with filter= passes its collected content once through exactly those filters; a buffered def returns it, after buffer_filters) are verified for all attribute texts and filter lists.",
     "level_note": "Trusted: the pyvc encoding of Python semantics (DESIGN 3.1), z3/cvc5, the induction hypothesis 'balanced' for opaque render callables, collections.deque modelled as a list. Native small-scope runs of the same contracts are bounded stand-ins and are not counted as proved.",
 }
 
@@ -50,6 +50,33 @@ def filter_once(rep, tier):
                        evaluations=len(cases), time_s=time.time() - t0, detail="the content goes once through the listed filters, in order, and through nothing else"))
 
 
+def signature_grid(rep, tier):
+    """bounded stand-in for 'binds its arguments by Python's calling rules': re-emitted signatures against inspect.signature"""
+    from vrf.bounded import signature_grid as G
+    from vrf.propkit import pool_map
+    from vrf.core import Findings
+    t0 = time.time()
+    cases = list(G.signatures())
+    outs = [o for o in pool_map(G.run_signature, cases) if o]
+    known = {e["witness_class"]: e for e in Findings().all_known("C05")}
+    rest = []
+    for o in outs:
+        if o["bare_star"] and "bare-star-dropped" in known:
+            if not any(k.startswith(known["bare-star-dropped"]["what"][:60]) for k in rep.known_confirmed):
+                rep.known_confirmed.append("%s [%s: %s]" % (known["bare-star-dropped"]["what"], o["signature"], o["problem"][:100]))
+        else:
+            rest.append(o)
+    bound = "%d signatures: 0-3 positional (with defaults), none / *r / bare *, every ordered choice of 0-3 keyword-only parameters with and without defaults, with and without **kw" % len(cases)
+    if rest:
+        rep.add(Result("C05.signature-grid", VIOLATED, klass="B", backend="native-oracle", function="mako.ast:FunctionDecl.get_argument_expressions", bound=bound,
+                       evaluations=len(cases), detail="%s: %s" % (rest[0]["signature"], rest[0]["problem"][:200]), witness=rest[0], replayed=True,
+                       replay={"failures": rest[:3]}, time_s=time.time() - t0))
+    else:
+        rep.add(Result("C05.signature-grid", BOUNDED_OK, klass="B", backend="native-oracle", function="mako.ast:FunctionDecl.get_argument_expressions", bound=bound,
+                       evaluations=len(cases), time_s=time.time() - t0,
+                       detail="re-emitted signature and binding of a call equal Python's (%d bare-star signatures are the known finding)" % (len(outs) - len(rest))))
+
+
 def run(rep, tier):
     rep.trust(*BASE_TRUST)
     rep.assume(*BASE_ASSUME)
@@ -57,5 +84,6 @@ def run(rep, tier):
     run_schema(rep, family(tier), labels="normal")
     attr_mixtures(rep, tier)
     filter_once(rep, tier)
+    signature_grid(rep, tier)
     from vrf.propkit import link_bounded_witness
     link_bounded_witness(rep, only=lambda r: "_parse_attributes" in r.oid or "write_def_finish" in r.oid)
